@@ -55,6 +55,10 @@ def main() -> None:
                 exec_order.append(name)
 
     sys.addaudithook(hook)
+    if "logging-debug" in (job.get("ambient") or []):
+        import logging
+
+        logging.basicConfig(level=logging.DEBUG, stream=open("/dev/null", "w"))
     failed = None
     for i, (form, mod, name) in enumerate(job["steps"]):
         full = f"chartparse.{mod}"
